@@ -10,10 +10,12 @@ import model_sweep
 from vlib import ToolError, log
 
 MODEL_PLAN = {
-    "C13": [("pair", 2, 840, 3000, 200, True, ["M_Subdivision", "M_StatusLineSorted", "M_NoPanic"])],
+    "C13": [("pair", 2, 840, 3000, 200, True, ["M_Subdivision", "M_StatusLineSorted", "M_NoPanic"]),
+            ("gen:en:2x2:4/0:1_1:s", 2, 1, 128, 8, True, ["M_Subdivision", "M_StatusLineSorted", "M_NoPanic", "M_ResultRegion"])],
     "C14": [("pairB", 2, 840, 3000, 200, True, ["M_Classification", "M_NoPanic"]), ("nest2", 2, 840, 12, 2, True, ["M_Classification"]),
-            ("star3", 2, 840, 40, 3, True, ["M_Classification", "M_Subdivision"])],
-    "C15": [("quad", 2, 840, 200, 20, True, ["M_StatusLineSorted", "M_NoPanic"])],
+            ("star3", 2, 840, 40, 3, True, ["M_Classification", "M_Subdivision"]),
+            ("gen:frames", 2, 1, 25, 300, True, ["M_Classification", "M_Subdivision", "M_Nesting"]), ("gen:en:2x2:3:0_0:s", 2, 1, 2048, 64, True, ["M_Classification", "M_ResultRegion"])],
+    "C15": [("quad", 2, 840, 200, 20, True, ["M_StatusLineSorted", "M_NoPanic"]), ("gen:lat", 2, 1, 40, 500, True, ["M_StatusLineSorted", "M_NoPanic", "M_Subdivision"])],
 }
 
 PROPS = ["C13", "C14", "C15", "C16"]
@@ -93,9 +95,13 @@ def run_stage_prop(prop, tier, seed, t0):
     rid0 = 1 + sum(1 for _ in open(trace))
     for mi, (fam, n, l, sq, st, sc, invs) in enumerate(MODEL_PLAN.get(prop, [])):
         stride = sq if tier == "quick" else st
-        mwd = os.path.join(vlib.OUT, prop, "model-%d-%s" % (mi, fam))
-        r = model_sweep.model_and_replay(prop, mwd, family=fam, n=n, l=l, stride=stride,
-                                         offset=(seed * 7 + mi) % stride, use_shortcuts=sc, invs=invs, timeout=10000)
+        mwd = os.path.join(vlib.OUT, prop, "model-%d-%s" % (mi, fam.replace(":", "_").replace("/", "_")))
+        if fam.startswith("gen:"):
+            # Layer M on the inputs of a generator family of the harness (MC_Sweep Family "file")
+            r = model_sweep.model_and_replay(prop, mwd, generator=(fam[4:], stride, seed * 7 + mi), n=n, l=l, stride=1, offset=0, use_shortcuts=sc, invs=invs, timeout=10000)
+        else:
+            r = model_sweep.model_and_replay(prop, mwd, family=fam, n=n, l=l, stride=stride,
+                                             offset=(seed * 7 + mi) % stride, use_shortcuts=sc, invs=invs, timeout=10000)
         inputs = r.pop("inputs")
         r.update({"family": fam, "stride": stride, "invariants": invs})
         if inputs:
@@ -104,7 +110,7 @@ def run_stage_prop(prop, tier, seed, t0):
                 for (a, b, op) in inputs:
                     f.write(json.dumps({"A": a, "B": b, "op": op}, separators=(",", ":")) + "\n")
             tmp = os.path.join(mwd, "stages.tmp")
-            vlib.vh(["stage-inputs", "--file", src, "--rid0", rid0, "--matrix", 12, "--family", "layerM/" + fam], tmp)
+            vlib.vh(["stage-inputs", "--file", src, "--rid0", rid0, "--matrix", 12, "--family", "layerM/" + fam.replace("gen:", "gen/")], tmp)
             with open(tmp) as f, open(trace, "a") as g:
                 for line in f:
                     g.write(line)
@@ -257,6 +263,40 @@ def run_c16(tier, seed, t0):
     per.append({"float_pairs": nfl, "failures": len(hard), "bump_known_finding": nb, "tlc_s": round(dt3, 1)})
     log("[C16] float pass: %d float pairs judged on containment / common point: %d failures, %d documented one-ulp bumps" % (nfl, len(hard), nb))
     os.remove(fpath)
+    # exact pass: float segment pairs in robust configurations far outside the integer domain (needles crossing at angles
+    # down to 2^-30, coordinates up to 2^30 in power-of-two frames, exact T-touches, common end points), every clause of
+    # the statement decided exactly on the bit patterns (TracePIExact.tla / FloatGeometry.tla)
+    for ftype, nex in (("f64", 40000 if tier == "quick" else 1000000), ("f32", 20000 if tier == "quick" else 500000)):
+        epath = os.path.join(wd, "exact-%s.ndjson" % ftype)
+        vlib.vh(["float-pi-exact", "--count", nex, "--seed", seed + 11] + (["--f32"] if ftype == "f32" else []), epath)
+        cfg4 = "SPECIFICATION Spec\nINVARIANTS\n C16_ExactOnFloats\n HarnessHonest\nCHECK_DEADLOCK TRUE\n"
+        out4, dt4 = vlib.run_tlc_trace("TracePIExact.tla", cfg4, os.path.join(wd, "trexact-" + ftype), epath, timeout=6000)
+        res4 = vlib.parse_tlc(out4, {"C16_ExactOnFloats", "HarnessHonest"})
+        if res4["tool_errors"] or "HarnessHonest" in res4["violated"]:
+            raise ToolError("TracePIExact: %s %s" % (res4["tool_errors"][:3], res4["violated"]))
+        verdicts = re.findall(r'<<"PIEXACT", "(\w+)", (\d+)>>', out4)
+        bad = sorted({int(i) for (k, i) in verdicts if k == "fail"})
+        nskip = len({int(i) for (k, i) in verdicts if k == "skip"})
+        if bool(bad) != ("C16_ExactOnFloats" in res4["violated"]):
+            raise ToolError("inconsistent TracePIExact output")
+        nrec = sum(1 for _ in open(epath))
+        if nskip * 10 > nrec:
+            raise ToolError("vacuity: %d of %d float pairs were not robust configurations" % (nskip, nrec))
+        if bad:
+            erecs = {r["id"]: r for r in vlib.load_sessions(epath)}
+            os.makedirs(os.path.join(vlib.OUT, "replays"), exist_ok=True)
+            for fid in bad[:10]:
+                p = os.path.join(vlib.OUT, "replays", "C16-exact-%s-%d.json" % (ftype, fid))
+                json.dump(erecs[fid], open(p, "w"))
+                log("VIOLATION property=C16 replay=%s" % p)
+                log("  float pair (mode %s) %s" % (erecs[fid]["mode"], json.dumps(erecs[fid])[:400]))
+            nviol += len(bad)
+        tot += nrec
+        tot_states += res4["distinct"]
+        tot_trans += res4["generated"]
+        per.append({"exact_float_pairs": nrec, "F": ftype, "failures": len(bad), "not_robust_skipped": nskip, "tlc_s": round(dt4, 1)})
+        log("[C16] exact pass %s: %d float pairs decided exactly on their bit patterns: %d failures, %d not robust (skipped)" % (ftype, nrec, len(bad), nskip))
+        os.remove(epath)
     cov = {"states": tot_states, "transitions": tot_trans, "traces_validated_against_impl": tot - nviol, "samples": samples,
            "evaluations": tot, "distinct_nontrivial": tot, "exhaustive": True, "per_lattice": per,
            "rule": "every ordered pair of non-degenerate lattice segments (left end first), scaled by its own determinant, with operand/in-out flag combinations for overlapping pairs; each tuple is one real call of possible_intersection"}
